@@ -1,16 +1,17 @@
 #!/bin/bash
-# keep_seed.sh <ID> <caught-by text> : stores a verified seeded change under /verif/seeded/<ID>/
-ID=$1; CAUGHT=$2; SRC=/tmp/seed-$ID/seeded_out; DST=/verif/seeded/$ID
+# keep_seed.sh <ID> <caught-by text> [<seeded_out dir> [<store name> [<round note>]]] : stores a verified seeded change
+# under /verif/seeded/<store name>/ (default name = ID, default source /tmp/seed-<ID>/seeded_out)
+ID=$1; CAUGHT=$2; SRC=${3:-/tmp/seed-$ID/seeded_out}; NAME=${4:-$ID}; ROUND=${5:-round 1}; DST=/verif/seeded/$NAME
 mkdir -p $DST && cp $SRC/patch.diff $DST/ && rm -rf $DST/demo && cp -r $SRC/demo $DST/demo
-python3 - "$ID" "$CAUGHT" <<'PY'
+python3 - "$ID" "$CAUGHT" "$SRC" "$DST" "$ROUND" <<'PY'
 import json,sys
-ID,caught=sys.argv[1],sys.argv[2]
-m=json.load(open(f'/tmp/seed-{ID}/seeded_out/meta.json'))
-out={"property":ID,"breaks":m.get("summary"),"needs_to_manifest":m.get("needs_to_manifest"),"files_changed":m.get("files_changed"),
- "origin":"fresh sub-agent given only the property text and a scratch worktree (no access to /verif)",
+ID,caught,src,dst,rnd=sys.argv[1:6]
+m=json.load(open(f'{src}/meta.json'))
+out={"property":ID,"round":rnd,"breaks":m.get("summary"),"needs_to_manifest":m.get("needs_to_manifest"),"files_changed":m.get("files_changed"),
+ "origin":"fresh sub-agent given only the property text and a scratch worktree (no access to /verif)" + ("; told which idea round 1 had used and asked to attack a different clause or mechanism" if rnd!="round 1" else ""),
  "confirmed_here":{"how":"verify_seed.sh on a fresh scratch worktree of /repo HEAD: demo on the clean tree (must pass), git apply patch.diff, go build ./..., demo with the change (must fail), the library suite with the change (must pass; a package that failed under machine load was re-run alone once)",
    "demo_fails_with_change":True,"demo_passes_without_change":True,"suite_passes_with_change":True,"demo_failure_rate":m.get("demo_failure_rate")},
  "caught_by":caught}
-json.dump(out,open(f'/verif/seeded/{ID}/meta.json','w'),indent=1)
+json.dump(out,open(f'{dst}/meta.json','w'),indent=1)
 PY
 ls $DST
